@@ -92,6 +92,16 @@ Theorem C15_fresh_only_when_missing : forall mode mt es outs i e l k t,
 Proof. exact ta_fresh_only_when_missing. Qed.
 Print Assumptions C15_fresh_only_when_missing.
 
+(* Position by position on the common axis: a type that has a message with that timestamp shows its first such
+   message (the identical object); otherwise a default-valued message carrying the timestamp stands there. *)
+Theorem C15_positionwise : forall mode mt es outs i e l k t,
+  ta_align mode mt es = Ok outs -> ta_out_of es outs i e l -> nth_error (map ta_time l) k = Some t ->
+  (In t (ta_times e) ->
+     exists m, nth_error l k = Some (Kept m) /\ fst m = t /\ ta_first_occurrence m (e_msgs e)) /\
+  (~ In t (ta_times e) -> nth_error l k = Some (Fresh t)).
+Proof. exact ta_positionwise. Qed.
+Print Assumptions C15_positionwise.
+
 (* Which originals remain: exactly the first-occurrence messages whose time is on the common axis ... *)
 Theorem C15_survivors : forall mode mt es outs i e l m,
   ta_align mode mt es = Ok outs -> ta_out_of es outs i e l ->
